@@ -8,6 +8,7 @@ every rule sees one shape (source positions are kept for the reports).
                                                                                    parameter names are kept on the node)
 """
 import ast
+import os
 
 
 def _negate(e):
@@ -327,6 +328,8 @@ def shape(tree, modname=None):
     tree = NNF().visit(tree)             # the nesting step creates new `not` tests
     tree = loops_to_comprehensions(tree)
     tree = merge_dict_stores(tree)
+    if os.environ.get('GSCAN_NO_TEMPS') != '1':
+        tree = inline_temps(tree)
     return ast.fix_missing_locations(inline_return_temps(tree))
 
 
@@ -364,3 +367,354 @@ def positional_calls(repo):
                 moved = True
             n._callee_params = ps
             n._kw_moved = moved
+
+
+# ------------------------------------------------------------------------------------------------ temporaries
+PURE_FUNCS = {
+    'len', 'min', 'max', 'sum', 'abs', 'round', 'float', 'int', 'str', 'bool', 'list', 'tuple', 'dict', 'set', 'frozenset', 'sorted',
+    'reversed', 'enumerate', 'zip', 'range', 'any', 'all', 'isinstance', 'hasattr', 'getattr', 'id', 'repr', 'type', 'divmod', 'pow',
+    'zeros', 'ones', 'array', 'asarray', 'outer', 'log10', 'log', 'log2', 'exp', 'sqrt', 'sin', 'cos', 'tan', 'arange', 'linspace',
+    'interp', 'polyfit', 'polyval', 'squeeze', 'mean', 'argsort', 'argmin', 'argmax', 'cumsum', 'diff', 'concatenate', 'full', 'where',
+    'ceil', 'floor', 'isscalar', 'isnan', 'clip', 'searchsorted', 'unique', 'amax', 'amin', 'tile', 'divide', 'multiply', 'prod',
+    'matmul', 'flip', 'sort', 'copy', 'deepcopy', 'sinc', 'pi', 'arcsinh', 'arctan', 'expand_dims', 'stack', 'hstack', 'vstack',
+    'zeros_like', 'ones_like', 'full_like', 'transpose', 'reshape', 'ravel', 'fabs', 'sign', 'square', 'power', 'maximum', 'minimum',
+    'lin2db', 'db2lin', 'watt2dbm', 'dbm2watt', 'Decimal', 'Fraction', 'namedtuple', 'OrderedDict', 'Counter', 'defaultdict',
+}
+PURE_METHODS = {'get', 'items', 'values', 'keys', 'lower', 'upper', 'strip', 'lstrip', 'rstrip', 'split', 'startswith', 'endswith',
+                'format', 'copy', 'index', 'count', 'join', 'replace', 'title', 'isdigit', 'astype', 'tolist', 'flatten', 'reshape',
+                'transpose', 'squeeze', 'mean', 'sum', 'min', 'max', 'any', 'all', 'argmin', 'argmax', 'successors', 'predecessors',
+                'neighbors', 'nodes', 'edges', 'rjust', 'ljust', 'encode', 'decode', 'union', 'intersection', 'difference', 'issubset'}
+
+
+def effect_free(e):
+    """evaluating e changes nothing (attribute / subscript reads and the operators of the values involved are taken to be pure)"""
+    for x in ast.walk(e):
+        if isinstance(x, ast.Call):
+            f = x.func
+            if isinstance(f, ast.Name) and f.id in PURE_FUNCS:
+                continue
+            if isinstance(f, ast.Attribute) and f.attr in PURE_METHODS:
+                continue
+            if isinstance(f, ast.Attribute) and isinstance(f.value, ast.Name) and f.value.id in ('np', 'numpy', 'math') and \
+                    f.attr in PURE_FUNCS:
+                continue
+            return False
+        if isinstance(x, (ast.NamedExpr, ast.Yield, ast.YieldFrom, ast.Await, ast.Lambda)):
+            return False
+    return True
+
+
+def _effect_free_stmt(s):
+    if isinstance(s, (ast.Assign, ast.AnnAssign)):
+        ts = s.targets if isinstance(s, ast.Assign) else [s.target]
+        def plain(t):
+            return isinstance(t, ast.Name) or (isinstance(t, (ast.Tuple, ast.List)) and all(plain(y) for y in t.elts))
+        return all(plain(t) for t in ts) and (s.value is None or effect_free(s.value))
+    if isinstance(s, ast.Expr):
+        return effect_free(s.value)
+    if isinstance(s, ast.If):
+        return effect_free(s.test) and all(_effect_free_stmt(x) for x in s.body + s.orelse)
+    if isinstance(s, ast.Pass):
+        return True
+    return False
+
+
+def _stores(node):
+    out = set()
+    for x in ast.walk(node):
+        if isinstance(x, ast.Name) and isinstance(x.ctx, (ast.Store, ast.Del)):
+            out.add(x.id)
+    return out
+
+
+class _UseOrder:
+    """walks one statement's header expressions in evaluation order; records for each Load of `name` whether it is evaluated
+    unconditionally, exactly once, and before any effect of the statement"""
+    def __init__(self, name):
+        self.name = name
+        self.effect = False
+        self.uses = []        # (node, unconditional, before_effect)
+
+    def ev(self, e, uncond=True, once=True):
+        if e is None:
+            return
+        if isinstance(e, ast.Name):
+            if e.id == self.name and isinstance(e.ctx, ast.Load):
+                self.uses.append((e, uncond and once, not self.effect))
+            return
+        if isinstance(e, ast.Constant):
+            return
+        if isinstance(e, ast.BoolOp):
+            self.ev(e.values[0], uncond, once)
+            for v in e.values[1:]:
+                self.ev(v, False, once)
+            return
+        if isinstance(e, ast.IfExp):
+            self.ev(e.test, uncond, once)
+            self.ev(e.body, False, once)
+            self.ev(e.orelse, False, once)
+            return
+        if isinstance(e, (ast.ListComp, ast.SetComp, ast.GeneratorExp, ast.DictComp)):
+            g0 = e.generators[0]
+            lazy = isinstance(e, ast.GeneratorExp)
+            self.ev(g0.iter, uncond and not lazy or uncond, once)
+            rest = [c for c in g0.ifs]
+            for g in e.generators[1:]:
+                rest += [g.iter] + list(g.ifs)
+            rest += [e.key, e.value] if isinstance(e, ast.DictComp) else [e.elt]
+            for r in rest:
+                self.ev(r, False, False)
+            return
+        if isinstance(e, ast.Lambda):
+            self.ev(e.body, False, False)
+            return
+        if isinstance(e, ast.Call):
+            self.ev(e.func, uncond, once)
+            for a in e.args:
+                self.ev(a.value if isinstance(a, ast.Starred) else a, uncond, once)
+            for k in e.keywords:
+                self.ev(k.value, uncond, once)
+            if not effect_free(ast.Call(func=e.func, args=[], keywords=[])):
+                self.effect = True
+            return
+        if isinstance(e, ast.Compare):
+            self.ev(e.left, uncond, once)
+            self.ev(e.comparators[0], uncond, once)
+            for c in e.comparators[1:]:
+                self.ev(c, False, once)
+            return
+        if isinstance(e, (ast.NamedExpr, ast.Await, ast.Yield, ast.YieldFrom)):
+            for c in ast.iter_child_nodes(e):
+                self.ev(c, uncond, once)
+            self.effect = True
+            return
+        for c in ast.iter_child_nodes(e):
+            if isinstance(c, ast.expr):
+                self.ev(c, uncond, once)
+            elif isinstance(c, (ast.keyword, ast.FormattedValue)):
+                self.ev(c.value, uncond, once)
+            elif isinstance(c, ast.comprehension):
+                pass
+
+
+def _header_exprs(s):
+    """expressions a statement evaluates itself (not its nested blocks), in evaluation order; None when the order is not modelled"""
+    if isinstance(s, ast.Assign):
+        return [s.value] + [t for t in s.targets if not isinstance(t, ast.Name)]
+    if isinstance(s, ast.AnnAssign):
+        return [s.value] if isinstance(s.target, ast.Name) else None
+    if isinstance(s, ast.AugAssign):
+        return [s.value] if isinstance(s.target, ast.Name) else None
+    if isinstance(s, (ast.Return, ast.Expr)):
+        return [s.value]
+    if isinstance(s, ast.If):
+        return [s.test]
+    if isinstance(s, (ast.For, ast.AsyncFor)):
+        return [s.iter]
+    if isinstance(s, ast.Raise):
+        return [s.exc, s.cause]
+    if isinstance(s, ast.Assert):
+        return [s.test]
+    return None
+
+
+def inline_temps(tree):
+    """t = e  ...  use(t)   ->   ... use(e)     for a local t assigned once, when that is exactly behaviour-preserving:
+       - every use of t is in the header expressions (not the nested blocks) of later statements of the same block, evaluated
+         unconditionally and before any effect of its statement; t is not used in a nested function;
+       - one use and e arbitrary: the use is in the NEXT statement and only names / constants are evaluated before it;
+       - e effect-free (reads, arithmetic, pure builtins / numpy / pure methods): any number of uses; the statements between the
+         definition and the last use are effect-free assignments to other locals that bind no name e reads."""
+    for fn in [n for n in ast.walk(tree) if isinstance(n, (ast.FunctionDef, ast.AsyncFunctionDef))]:
+        for _ in range(8):
+            if not _inline_temps_once(fn):
+                break
+    return tree
+
+
+def _inline_temps_once(fn):
+    params = {a.arg for a in fn.args.args + fn.args.kwonlyargs + fn.args.posonlyargs}
+    if fn.args.vararg:
+        params.add(fn.args.vararg.arg)
+    if fn.args.kwarg:
+        params.add(fn.args.kwarg.arg)
+    stores, loads, banned = {}, {}, set(params)
+    todo = list(fn.body)
+    while todo:
+        n = todo.pop()
+        if isinstance(n, (ast.FunctionDef, ast.AsyncFunctionDef, ast.ClassDef, ast.Lambda)):
+            # names read or bound in nested scopes are left alone (late binding)
+            for x in ast.walk(n):
+                if isinstance(x, ast.Name):
+                    banned.add(x.id)
+            if isinstance(n, (ast.FunctionDef, ast.AsyncFunctionDef, ast.ClassDef)):
+                banned.add(n.name)
+            continue
+        if isinstance(n, (ast.Global, ast.Nonlocal)):
+            banned.update(n.names)
+        if isinstance(n, ast.Name):
+            if isinstance(n.ctx, ast.Load):
+                loads[n.id] = loads.get(n.id, 0) + 1
+            else:
+                stores[n.id] = stores.get(n.id, 0) + 1
+        if isinstance(n, ast.ExceptHandler) and n.name:
+            banned.add(n.name)
+        if isinstance(n, (ast.Import, ast.ImportFrom)):
+            banned.update((a.asname or a.name).split('.')[0] for a in n.names)
+        if isinstance(n, (ast.AugAssign,)) and isinstance(n.target, ast.Name):
+            banned.add(n.target.id)
+        if isinstance(n, (ast.With, ast.AsyncWith)):
+            for it in n.items:
+                if it.optional_vars is not None:
+                    banned.update(_stores(it.optional_vars))
+        if isinstance(n, (ast.For, ast.AsyncFor)):
+            banned.update(_stores(n.target))
+        if isinstance(n, ast.comprehension):
+            banned.update(_stores(n.target))
+        if isinstance(n, ast.NamedExpr):
+            banned.add(n.target.id)
+        todo.extend(ast.iter_child_nodes(n))
+    changed = False
+    for node, fld, blk in list(_blocks(fn)):
+        # blocks of nested functions are handled with their own function
+        i = 0
+        while i < len(blk):
+            st = blk[i]
+            if not (isinstance(st, ast.Assign) and len(st.targets) == 1 and isinstance(st.targets[0], ast.Name)):
+                i += 1
+                continue
+            t = st.targets[0].id
+            if t in banned or stores.get(t) != 1 or not loads.get(t) or _owner(fn, blk) is not fn:
+                i += 1
+                continue
+            e = st.value
+            if any(isinstance(x, ast.Name) and x.id == t for x in ast.walk(e)):
+                i += 1
+                continue
+            pure = effect_free(e)
+            reads = {x.id for x in ast.walk(e) if isinstance(x, ast.Name)}
+            found, ok, j = [], True, i + 1
+            while j < len(blk) and len(found) < loads[t]:
+                s = blk[j]
+                hdr = _header_exprs(s)
+                n_here = sum(1 for x in ast.walk(s) if isinstance(x, ast.Name) and x.id == t)
+                if n_here:
+                    if hdr is None:
+                        ok = False
+                        break
+                    uo = _UseOrder(t)
+                    for h in hdr:
+                        uo.ev(h)
+                    if len(uo.uses) != n_here or not all(u and b for _, u, b in uo.uses):
+                        ok = False
+                        break
+                    if not pure:
+                        # arbitrary e: next statement, single use, only names / constants evaluated before it
+                        if j != i + 1 or loads[t] != 1 or not _leads(hdr, t):
+                            ok = False
+                            break
+                    found.extend(x for x, _, _ in uo.uses)
+                if len(found) < loads[t]:
+                    # s lies between the definition and a later use
+                    if not pure or not _effect_free_stmt(s) or (_stores(s) & (reads | {t})):
+                        ok = False
+                        break
+                j += 1
+            if not ok or len(found) != loads[t]:
+                i += 1
+                continue
+            for s in blk[i + 1:j + 1]:
+                _replace_name(s, t, e)
+            del blk[i]
+            changed = True
+            stores[t] = 0
+            loads[t] = 0
+            for x in ast.walk(e):
+                if isinstance(x, ast.Name) and isinstance(x.ctx, ast.Load):
+                    loads[x.id] = loads.get(x.id, 0) + max(len(found) - 1, 0)
+        # next block
+    return changed
+
+
+def _owner(fn, blk):
+    """the innermost function whose body (transitively, without entering nested functions) contains this block"""
+    todo = [fn]
+    while todo:
+        n = todo.pop()
+        for fld in ('body', 'orelse', 'finalbody'):
+            if getattr(n, fld, None) is blk:
+                return fn
+        if isinstance(n, ast.ExceptHandler) and n.body is blk:
+            return fn
+        for c in ast.iter_child_nodes(n):
+            if isinstance(c, (ast.FunctionDef, ast.AsyncFunctionDef, ast.ClassDef, ast.Lambda)) and c is not fn:
+                continue
+            todo.append(c)
+    return None
+
+
+def _leads(hdr, t):
+    """the use of t is the first thing evaluated that is not a name / constant"""
+    e = hdr[0] if hdr else None
+    while e is not None:
+        if isinstance(e, ast.Name):
+            return e.id == t
+        if isinstance(e, (ast.Attribute, ast.Subscript, ast.Starred)):
+            e = e.value
+        elif isinstance(e, ast.Call):
+            if isinstance(e.func, ast.Attribute):
+                e = e.func.value
+            elif isinstance(e.func, ast.Name):
+                k = 0
+                while k < len(e.args) and isinstance(e.args[k], (ast.Name, ast.Constant)) and not (isinstance(e.args[k], ast.Name) and e.args[k].id == t):
+                    k += 1
+                if k < len(e.args):
+                    e = e.args[k]
+                else:
+                    kws = [kw.value for kw in e.keywords]
+                    m = 0
+                    while m < len(kws) and isinstance(kws[m], (ast.Name, ast.Constant)) and not (isinstance(kws[m], ast.Name) and kws[m].id == t):
+                        m += 1
+                    e = kws[m] if m < len(kws) else None
+            else:
+                return False
+        elif isinstance(e, ast.BinOp):
+            e = e.left if not isinstance(e.left, ast.Constant) and not (isinstance(e.left, ast.Name) and e.left.id != t) else e.right
+        elif isinstance(e, ast.Compare):
+            e = e.left if not isinstance(e.left, ast.Constant) and not (isinstance(e.left, ast.Name) and e.left.id != t) else e.comparators[0]
+        elif isinstance(e, ast.BoolOp):
+            e = e.values[0]
+        elif isinstance(e, ast.UnaryOp):
+            e = e.operand
+        elif isinstance(e, (ast.Tuple, ast.List)):
+            k = 0
+            while k < len(e.elts) and isinstance(e.elts[k], (ast.Name, ast.Constant)) and not (isinstance(e.elts[k], ast.Name) and e.elts[k].id == t):
+                k += 1
+            e = e.elts[k] if k < len(e.elts) else None
+        elif isinstance(e, ast.JoinedStr):
+            vals = [v.value for v in e.values if isinstance(v, ast.FormattedValue)]
+            e = vals[0] if vals else None
+        else:
+            return False
+    return False
+
+
+def _replace_name(stmt, t, e):
+    import copy
+
+    class R(ast.NodeTransformer):
+        def visit_Name(self, n):
+            if n.id == t and isinstance(n.ctx, ast.Load):
+                new = copy.deepcopy(e)
+                new._from_temp = t
+                return new
+            return n
+    hdr_fields = {ast.Assign: ('value', 'targets'), ast.AnnAssign: ('value',), ast.AugAssign: ('value',), ast.Return: ('value',),
+                  ast.Expr: ('value',), ast.If: ('test',), ast.For: ('iter',), ast.AsyncFor: ('iter',), ast.Raise: ('exc', 'cause'),
+                  ast.Assert: ('test',)}
+    for f in hdr_fields.get(type(stmt), ()):
+        v = getattr(stmt, f)
+        if isinstance(v, list):
+            setattr(stmt, f, [R().visit(x) for x in v])
+        elif v is not None:
+            setattr(stmt, f, R().visit(v))
